@@ -279,7 +279,7 @@ DEFAULT_OPTS = dict(
     n_comps=(2, 5), max_rank=2, max_extent=3, units=True, chains=True, max_deg=2,
     scaling=False, safe_indices=False, cycles=False, auto_ivc=True, shuffle_order=False,
     implicit=False, array_scaling=False, resp_chain=False, prefix_names=False, dyn_sibling=False,
-    auto_ivc_p=0.15, solver_options_api=False,
+    auto_ivc_p=0.15, solver_options_api=False, partial_auto_order=False,
 )
 
 
@@ -462,7 +462,37 @@ def gen_md(rng, **kw):
                     used.add((c['group'], nm))
                     c['name'] = nm
     _assign_styles(rng, md)
-    if o['shuffle_order']:
+    if o['shuffle_order'] and o['partial_auto_order']:
+        # only some groups reorder themselves (auto_order); the others are declared in data-flow
+        # (creation) order.  Children of a group: its components and its direct sub-groups.
+        allg = set([''])
+        for c in comps:
+            g = c['group']
+            while g:
+                allg.add(g)
+                g = g.rpartition('.')[0]
+        auto = {g for g in sorted(allg) if rng.random() < 0.6}
+
+        def flatten(g):
+            ch, seen = [], set()
+            for ci, c in enumerate(comps):
+                if c['group'] == g:
+                    ch.append(('c', ci))
+                elif c['group'].startswith(g + '.' if g else '') and c['group'] != g:
+                    rest = c['group'][len(g) + 1:] if g else c['group']
+                    sub = (g + '.' if g else '') + rest.split('.')[0]
+                    if sub not in seen:
+                        seen.add(sub)
+                        ch.append(('g', sub))
+            if g in auto:
+                rng.shuffle(ch)
+            out = []
+            for kind, x in ch:
+                out.extend([x] if kind == 'c' else flatten(x))
+            return out
+        md['add_order'] = flatten('')
+        md['auto_order_groups'] = sorted(auto)
+    elif o['shuffle_order']:
         order = list(range(len(comps)))
         rng.shuffle(order)
         md['add_order'] = order
@@ -1051,10 +1081,11 @@ def build_problem(md, log=None, cfg=None):
             return gobj[g]
         parent, _, name = g.rpartition('.')
         gobj[g] = need_group(parent).add_subsystem(name, om.Group())
-        if cfg.get('auto_order'):
+        if cfg.get('auto_order') and (auto_groups is None or g in auto_groups):
             gobj[g].options['auto_order'] = True
         return gobj[g]
-    if cfg.get('auto_order'):
+    auto_groups = set(md['auto_order_groups']) if 'auto_order_groups' in md else None
+    if cfg.get('auto_order') and (auto_groups is None or '' in auto_groups):
         model.options['auto_order'] = True
     cobj = {}
     for ci in md['add_order']:
